@@ -53,6 +53,8 @@ def _build_shim(meta, extra_cflags=()):
 def load(variant="pin", install_allocator=True, pre_global=None):
     """Build (if needed) and load the variant; returns (L, S)."""
     global L, S, META, VARIANT
+    if variant == "pin" and os.environ.get("VERIF_PIN_AS"):
+        variant = os.environ["VERIF_PIN_AS"]           # development aid: run the pin passes against e.g. the gcov build
     meta = build.get(variant)
     if pre_global:
         for p in pre_global:
